@@ -6,7 +6,7 @@ cutadapt.cli.main on a corpus of pairs whose mates disagree on most predicates."
 import itertools
 import json
 
-from .. import clih, common, routing
+from .. import clih, common, pairwise, routing
 
 PROP = "C05"
 MOD = "vf.checks.c05"
@@ -63,6 +63,12 @@ def scenarios(tier):
                               spec=None, pa=True, action=action, nad=nad))
             S.append(dict(inl="paired", outl=False, pf=None, keys=[], final=None, sides="both", redirect=False, demux="name",
                           spec=None, pa=True, action=action, nad=nad))
+    # every pair of entries of the option universe of vf.pairwise, paired-end
+    for k in range(pairwise.count()):
+        p = pairwise.get(k)
+        if p["layout"] == "paired":
+            S.append(dict(pw=k, label=p["label"], inl="paired", outl=bool(p["outs"].get("interleaved_out")), pf=p["opts"].get("pair_filter"),
+                          keys=[], final=None, sides="both", redirect=False, demux=p["outs"].get("demux"), spec=None, pa=False))
     # several cores: every schedule with <= 1 deviation must keep the paired files of the one-core run (deeper: C06)
     for outl, demux in ((False, None), (True, None), (False, "name")):
         S.append(dict(inl="paired", outl=outl, pf=None, keys=["m"], final="untrimmed_output", sides="both", redirect=True, demux=demux,
@@ -71,6 +77,9 @@ def scenarios(tier):
 
 
 def opts_of(sc):
+    if "pw" in sc:
+        p = pairwise.get(sc["pw"])
+        return dict(p["opts"]), dict(p["outs"])
     o = dict(e=0.1, O=5)
     for k in sc["keys"]:
         o[k] = THR[k]
@@ -125,17 +134,22 @@ def run_shard(d):
     r1, r2 = _corpora()
     wd = clih.fresh_dir("c05")
     res = dict(evals=0, runs=0, nontrivial=0, viol=common.Viols(cap=3), samples=[])
+    fwd = (r1, r2)
     for i in d["idx"]:
-        sc = S[i]
+        sc = dict(S[i], reversed_corpus=(i % 2 == 1))
+        # every other scenario reads the corpus back to front (the reference judges each pair on its own)
+        r1, r2 = (fwd[0][::-1], fwd[1][::-1]) if sc["reversed_corpus"] else fwd
         o, outs = opts_of(sc)
         if sc.get("mc"):
-            _multicore(sc, o, outs, r1[:40:5], r2[:40:5], wd, res)
+            _multicore(sc, o, outs, fwd[0][:40:5], fwd[1][:40:5], wd, res)
             continue
         out = routing.run_scenario(o, outs, sc["inl"], r1, r2, wd, want_json=False)
         res["runs"] += 1
         res["evals"] += len(r1)
         res["nontrivial"] += out["stats"]["disagreeing_pairs"]
         for kind, what, detail in out["violations"]:
+            if kind == "content" and not sc["pa"]:
+                continue  # what a single read looks like after trimming is judged by C03/C09/C10; --pair-adapters is C05's own rule
             res["viol"].append((f"{sc['demux'] or ('pair-adapters' if sc['pa'] else 'plain')}:{kind}", what,
                                 dict(scenario=sc, argv=[a for a in out["stats"]["argv"] if not a.startswith("/")], **detail)))
         if not res["samples"] and sc["pf"] == "both" and len(sc["keys"]) == 2:
@@ -199,6 +213,8 @@ def replay(path):
     sc = v["case"]["scenario"]
     o, outs = opts_of(sc)
     r1, r2 = _corpora()
+    if sc.get("reversed_corpus"):
+        r1, r2 = r1[::-1], r2[::-1]
     wd = clih.fresh_dir("c05r")
     out = routing.run_scenario(o, outs, sc["inl"], r1, r2, wd, want_json=False)
     print("violations on replay:", [x[:2] for x in out["violations"][:4]])
